@@ -338,3 +338,25 @@ def c03(version, routes, ops, timeout, res):
     if n_in != n_rep:
         bad.append(("inbound-unanswered", "%d inbound CALLs but %d replies were written" % (n_in, n_rep)))
     return bad
+
+
+def diff_desc(got, want, path=""):
+    """a short canonical description of how two payload trees differ (for finding keys)"""
+    if isinstance(got, dict) and isinstance(want, dict):
+        out = []
+        for k in sorted(set(got) | set(want)):
+            if k not in want:
+                out.append("+%s%s=%s" % (path, k, json.dumps(got[k], default=str, sort_keys=True)[:40]))
+            elif k not in got:
+                out.append("-%s%s" % (path, k))
+            else:
+                out += diff_desc(got[k], want[k], path + k + ".")
+        return out
+    if isinstance(got, list) and isinstance(want, list) and len(got) == len(want):
+        out = []
+        for i, (x, y) in enumerate(zip(got, want)):
+            out += diff_desc(x, y, path + "%d." % i)
+        return out
+    if same_value(got, want):
+        return []
+    return ["~%s:%s" % (path.rstrip("."), type(got).__name__)]
